@@ -47,6 +47,9 @@ inductive Expr where
   | in_ (a b : Expr)
   | index (e : Expr) (n : Nat)
   | sliceFrom (e : Expr) (n : Nat)
+  | callVal (f : Expr) (args : List Expr)            -- call of a local variable holding a validate function
+  | attrCall (e : Expr) (m : String) (args : List Expr)   -- `local.validate(...)`
+  | tupleZip (i j : Nat) (xs ys : Expr) (elt : Expr)  -- `tuple(elt for loc_i, loc_j in zip(xs, ys))`
   | unsupported (text : String)
   deriving Repr
 
@@ -59,6 +62,7 @@ inductive Stmt where
   | try_ (body : Stmt) (handlers : Handlers)
   | pass
   | seq (a b : Stmt)
+  | forIn (i : Nat) (iter : Expr) (body : Stmt)      -- `for loc_i in iter: body`
 inductive Handlers where
   | nil
   | cons (spec : ExcSpec) (body : Stmt) (rest : Handlers)
@@ -83,6 +87,8 @@ inductive PV where
   | str (s : String)
   | tup (xs : List PV)
   | tyOf (v : Val)                 -- `type(value)`
+  | fnv (g : Val → Res)            -- a CTrait / handler seen through its `validate(object, name, ·)`
+  | fns (gs : List (Val → Res))    -- a list / tuple of those
   | self_ | hobj | name | selfCls  -- the handler, the HasTraits object, the trait name, `object.__class__`
 
 /-- A raised exception: TraitError (raised by `self.error`), or an exception of the value's
@@ -181,6 +187,9 @@ def builtin {R : Type} (C : Ctx) (f : String) (args : List PV) (k : PV → R) (k
   | "_validate_float", [.val v] => ofExcept (validateFloat v) k ke
   | "_validate_complex_number", [.val v] => ofExcept (validateComplexNumber v) k ke
   | "callable", [.val v] => k (.bool v.callable)
+  | "len", [.val (.tuple _ vs)] => k (.int vs.length)
+  | "len", [.fns gs] => k (.int gs.length)
+  | "tuple", [.val (.list vs)] => k (.val (.tuple false vs))
   | "issubclass", [.val v, .ty t] =>
     match isSubclass v t with
     | some b => k (.bool b)
@@ -212,6 +221,32 @@ def callOut {R : Type} (C : Ctx) (name : String) (args : List PV) (k : PV → R)
   | .ret v => k v
   | .exc e => ke e
   | .stuck => k .undef
+
+/-- Calling a validate function on `(object, name, value)`. -/
+def callFn {R : Type} (f : PV) (args : List PV) (k : PV → R) (ke : PExc → R) : R :=
+  match f, args with
+  | .fnv g, [.hobj, .name, .val v] =>
+    match g v with
+    | .ok w => k (.val w)
+    | .traitError => ke .te
+    | .raised e => ke (.ex e)
+  | _, _ => k .undef
+
+/-- `zip(gs, vs)` evaluated pairwise, left to right; an exception stops the evaluation. -/
+def zipEval {R : Type} (f : (Val → Res) → Val → (PV → R) → (PExc → R) → R) :
+    List (Val → Res) → List Val → (List PV → R) → (PExc → R) → R
+  | g :: gs, b :: bs, k, ke => f g b (fun x => zipEval f gs bs (fun xs => k (x :: xs)) ke) ke
+  | _, _, k, _ => k []
+
+def pvToVal : PV → Val
+  | .val v => v
+  | _ => Val.none
+
+/-- `for x in items: step x`: `step` gets the continuation of normal completion. -/
+def forEach {R : Type} (step : (Val → Res) → List PV → (List PV → R) → R) :
+    List (Val → Res) → List PV → (List PV → R) → R
+  | [], σ, kn => kn σ
+  | g :: gs, σ, kn => step g σ (fun σ' => forEach step gs σ' kn)
 
 /-! ## The interpreter -/
 
@@ -251,6 +286,16 @@ def evalE {R : Type} (C : Ctx) : Expr → List PV → (PV → R) → (PExc → R
     evalE C e σ (fun x => match x with | .tup xs => k (xs.getD n .undef) | _ => k .undef) ke
   | .sliceFrom e n, σ, k, ke =>
     evalE C e σ (fun x => match x with | .tup xs => k (.tup (xs.drop n)) | _ => k .undef) ke
+  | .callVal f args, σ, k, ke => evalE C f σ (fun fv => evalArgs C args σ (fun xs => callFn fv xs k ke) ke) ke
+  | .attrCall e m args, σ, k, ke =>
+    evalE C e σ (fun fv => evalArgs C args σ (fun xs => if m = "validate" then callFn fv xs k ke else k .undef) ke) ke
+  | .tupleZip i j xs ys elt, σ, k, ke =>
+    evalE C xs σ (fun x => evalE C ys σ (fun y =>
+      match x, y with
+      | .fns gs, .val (.tuple _ vs) =>
+        zipEval (fun g b k' ke' => evalE C elt ((σ.set i (.fnv g)).set j (.val b)) k' ke') gs vs
+          (fun ws => k (.val (.tuple false (ws.map pvToVal)))) ke
+      | _, _ => k .undef) ke) ke
   | .unsupported _, _, k, _ => k .undef
 def evalArgs {R : Type} (C : Ctx) : List Expr → List PV → (List PV → R) → (PExc → R) → R
   | [], _, k, _ => k []
@@ -268,6 +313,11 @@ def exec {R : Type} (C : Ctx) : Stmt → List PV → (List PV → R) → (PV →
   | .try_ body hs, σ, kn, kr, ke => exec C body σ kn kr (fun e => handle C hs e σ kn kr ke)
   | .pass, σ, kn, _, _ => kn σ
   | .seq a b, σ, kn, kr, ke => exec C a σ (fun σ' => exec C b σ' kn kr ke) kr ke
+  | .forIn i iter body, σ, kn, kr, ke =>
+    evalE C iter σ (fun x =>
+      match x with
+      | .fns gs => forEach (fun g σ' kn' => exec C body (σ'.set i (.fnv g)) kn' kr ke) gs σ kn
+      | _ => kr .undef) ke
 def handle {R : Type} (C : Ctx) : Handlers → PExc → List PV → (List PV → R) → (PV → R) → (PExc → R) → R
   | .nil, e, _, _, _, ke => ke e
   | .cons spec body rest, e, σ, kn, kr, ke =>
@@ -325,6 +375,27 @@ def selfCfg : TraitType → String → PV
     | _ => .undef
   | _, _ => .undef
 
+/-- The same with the attributes that hold validators (they need the environment): the item
+CTraits of a Tuple, the member CTraits of a Union, the two validator lists
+`TraitCompound.set_validate` builds (members with a fast validator: their `validate`; the
+others: their `validate`, or the accept-all `_validate_anything` when they have none). -/
+def selfCfgE (E : Env) : TraitType → String → PV
+  | .noFast t, a => selfCfgE E t a
+  | .tuple items, a =>
+    match a with
+    | "types" => .fns (items.map (fun t => ctraitValidate E t))
+    | "no_type_check" => .bool false
+    | _ => .undef
+  | .union alts, "list_ctrait_instances" => .fns (alts.map (fun t => ctraitValidate E t))
+  | .compoundH hs, a =>
+    match a with
+    | "validates" => .fns ((hs.filter (fun t => (descOf E t).isSome)).map (fun t => pyValidate E t))
+    | "slow_validates" =>
+      .fns ((hs.filter (fun t => !(descOf E t).isSome)).map
+        (fun t x => if hasPy t then pyValidate E t x else .ok x))
+    | _ => .undef
+  | t, a => selfCfg t a
+
 /-- The `validate` method the handler of a trait type runs (class.method). -/
 def pyMethodOf : TraitType → Option String
   | .noFast t => pyMethodOf t
@@ -340,6 +411,9 @@ def pyMethodOf : TraitType → Option String
   | .instance .. => some "BaseInstance.validate"
   | .type_ .. => some "Type.validate"
   | .noneTrait => some "_NoneTrait.validate"
+  | .tuple _ => some "Tuple.validate"
+  | .union _ => some "Union.validate"
+  | .compoundH _ => some "TraitCompound.validate"
   | _ => none
 
 end TraitsVerif.Model.PyVSrc
